@@ -508,7 +508,40 @@ type Pair[K comparable, V any] interface{ Put(k K, v V) (V, bool) }
 // truncation, garbage. What the right exit status is depends on what the damaged bytes happen
 // to mean, so these cases are held only to "exits, never by an unrecovered panic".
 var c09Corruptions = []string{"config-flip-byte", "config-truncate", "config-empty", "config-binary", "config-is-directory", "config-yaml-shape", "source-flip-byte", "source-truncate", "gomod-flip-byte", "gomod-truncate", "gosum-garbage",
-	"template-flip-byte", "template-truncate", "template-shape", "schema-flip-byte", "schema-truncate", "schema-shape"}
+	"template-flip-byte", "template-truncate", "template-shape", "schema-flip-byte", "schema-truncate", "schema-shape",
+	"migrate-v2-config", "migrate-flip-byte", "migrate-truncate", "migrate-yaml-shape", "showconfig-flip-byte", "showconfig-yaml-shape"}
+
+const c09V2Config = `with-expecter: true
+inpackage: false
+keeptree: false
+dir: "mocks/{{.PackagePath}}"
+filename: "mock_{{.InterfaceName}}.go"
+mockname: "Mock{{.InterfaceName}}"
+outpkg: mocks
+issue-845-fix: true
+resolve-type-alias: false
+disable-version-string: true
+replace-type:
+  - example.com/w/a.T=example.com/w/b.U
+packages:
+  example.com/w/a:
+    config:
+      all: true
+      recursive: true
+      include-regex: ".*"
+      exclude-regex: "Skip.*"
+    interfaces:
+      Foo:
+        config:
+          mockname: FooMock
+          unroll-variadic: false
+        configs:
+          - mockname: FooAlt
+            filename: alt.go
+          - {}
+  example.com/w/b: {}
+  example.com/w/c:
+`
 
 var c09TemplateShapes = []string{
 	"{{", "{{ .Nope.Deeper }}", "{{ index .Interfaces 99 }}", "{{ range .Interfaces }}{{ index .Methods 99 }}{{ end }}", "{{ template \"missing\" . }}", "{{ define \"x\" }}{{ template \"x\" . }}{{ end }}package p",
@@ -595,6 +628,18 @@ func c09Corrupt(t world.Tree, kind string, r *core.Rng) world.Tree {
 		trunc("go.mod")
 	case "gosum-garbage":
 		n.Files["go.sum"] = "not a go.sum\n\x00\n"
+	case "migrate-v2-config":
+		n.Files[".mockery.yml"] = c09V2Config
+	case "migrate-flip-byte":
+		n.Files[".mockery.yml"] = c09V2Config
+		flip(".mockery.yml")
+	case "migrate-truncate":
+		n.Files[".mockery.yml"] = c09V2Config
+		trunc(".mockery.yml")
+	case "migrate-yaml-shape", "showconfig-yaml-shape":
+		n.Files[".mockery.yml"] = core.Pick(r, c09YAMLShapes)
+	case "showconfig-flip-byte":
+		flip(".mockery.yml")
 	case "template-flip-byte":
 		flip("templates/probe.templ")
 	case "template-truncate":
@@ -626,7 +671,14 @@ func c09Build(base *c09Base, all []c09Fault, sp c09Spec) c09Case {
 	if sp.corrupt != "" {
 		b := base.clone()
 		r := core.NewRng(sp.seed)
-		return c09Case{Tree: c09Corrupt(b.proj.Tree(), sp.corrupt, r), Step: world.Step{Plan: world.Plan(sp.policy, sp.seed, 0, 2001+sp.world, 500+sp.world)},
+		var args []string
+		if strings.HasPrefix(sp.corrupt, "migrate-") {
+			args = []string{"migrate", "--config", ".mockery.yml", "--outfile", "migrated_v3.yml"}
+		}
+		if strings.HasPrefix(sp.corrupt, "showconfig-") {
+			args = []string{"showconfig"}
+		}
+		return c09Case{Tree: c09Corrupt(b.proj.Tree(), sp.corrupt, r), Step: world.Step{Args: args, Plan: world.Plan(sp.policy, sp.seed, 0, 2001+sp.world, 500+sp.world)},
 			Faults: []string{"corrupt/" + sp.corrupt}, Expect: map[string][]string{}, Unjudged: true}
 	}
 	b := base.clone()
@@ -881,9 +933,9 @@ func RunC09(c *core.Ctx) int {
 			specs = append(specs, sp)
 		}
 	}
-	nCorrupt := 170
+	nCorrupt := 230
 	if c.Tier == "thorough" {
-		nCorrupt = 6000
+		nCorrupt = 8000
 	}
 	for k := 0; k < nCorrupt; k++ {
 		r := core.Stream(c.Seed, "c09-corrupt", k)
